@@ -194,21 +194,24 @@ def features_of(v, feats, inside=None):
 
 
 # ------------------------------------------------------------------------------- expected value
-def expected(v):
-    """Normal form the statement demands."""
+def expected(v, first_wins=False):
+    """Normal form the statement demands (first_wins=True: the *wrong* reading in which a repeated key
+    keeps its first value — only used to name that class of violation)."""
     if v is None or isinstance(v, str):
         return v
     k = v[0]
     if k in ("AL", "AM"):
         return None
     if k == "L":
-        return [expected(x) for x in v[1:]]
+        return [expected(x, first_wins) for x in v[1:]]
     if k == "M":
         d = {}
         for key, val in v[1:]:
-            d[key] = expected(val)
+            if first_wins and key in d:
+                continue
+            d[key] = expected(val, first_wins)
         return d
-    return tuple(expected(x) for x in v[1:])
+    return tuple(expected(x, first_wins) for x in v[1:])
 
 
 def expected_with_omitted_tail(v, lopt, fd_at, depth=0):
@@ -460,7 +463,7 @@ def diff(exp, got):
                 extra = ":last-missing"
             elif d < 0 and list(exp[-len(got):] if got else []) == list(got):
                 extra = ":first-missing"
-            return f"{kind}-length{d:+d}{extra}"
+            return f"{kind}-{'longer' if d > 0 else 'shorter'}{extra}"
         for e, g in zip(exp, got):
             d = diff(e, g)
             if d is not None:
@@ -515,5 +518,5 @@ def selftest():
     # "[a,,]" with nullable items and final delimiter allowed: items a, omitted; the final delimiter adds nothing
     r = render(["L", "a", None], L, M)
     assert r.tokens == ["[", "a", ",", ",", "]"] and r.fd_used and not r.fd_ambiguous and not r.fd_forbidden
-    assert diff(["a", "b"], ["a", "b", None]) == "list-length+1:extra-trailing-none"
+    assert diff(["a", "b"], ["a", "b", None]) == "list-longer:extra-trailing-none"
     assert diff(("a", ["b"]), ("a", ["b"])) is None and diff(["a", "b"], ["b", "a"]) == "list-reversed"
